@@ -8,7 +8,8 @@ VARIABLE done
 SimInit == done = FALSE /\ val = [type |-> "none"] /\ op = [kind |-> "init"]
 SimNext == /\ ~done
            /\ JsonSerialize("codec_catalogue.json",
-                 [t \in Types |-> [paths |-> SetToSeq(PathsOf(t)), values |-> SetToSeq(ValuesOf(t))]])
+                 [t \in Types |-> [paths |-> SetToSeq(PathsOf(t)), values |-> SetToSeq(ValuesOf(t)),
+                                 overs |-> IF t = "badgroup" THEN <<>> ELSE SetToSeq(Overs(t))]])
            /\ PrintT(<<"VP", "CATALOGUE", ToJson([t \in Types |-> Cardinality(ValuesOf(t))])>>)
            /\ done' = TRUE /\ UNCHANGED vars
 =============================================================================
